@@ -40,3 +40,62 @@ pub fn list<T>(xs: impl IntoIterator<Item = T>, f: impl Fn(T) -> String) -> Stri
     let v: Vec<String> = xs.into_iter().map(f).collect();
     l(&v)
 }
+
+/// serde_json::Value -> case format of Model/Json.v
+pub fn json(v: &serde_json::Value) -> String {
+    use serde_json::Value::*;
+    match v {
+        Null => "(n)".into(),
+        Bool(b) => format!("(b {})", boolean(*b)),
+        Number(x) => {
+            if let Some(i) = x.as_i64() {
+                format!("(i {})", i)
+            } else if let Some(u) = x.as_u64() {
+                format!("(i {})", u)
+            } else {
+                "(f)".into()
+            }
+        }
+        String(st) => format!("(s {})", s(st)),
+        Array(a) => {
+            let mut o = std::string::String::from("(a");
+            for x in a {
+                o.push(' ');
+                o.push_str(&json(x));
+            }
+            o.push(')');
+            o
+        }
+        Object(m) => {
+            let mut o = std::string::String::from("(o");
+            for (k, x) in m {
+                o.push_str(" (");
+                o.push_str(&s(k));
+                o.push(' ');
+                o.push_str(&json(x));
+                o.push(')');
+            }
+            o.push(')');
+            o
+        }
+    }
+}
+
+/// Query -> case format of Model/Query.v dec_query
+pub fn query(q: &anoncreds::verif::Query) -> String {
+    use anoncreds::verif::AbstractQuery::*;
+    match q {
+        And(l) => format!("(and{})", l.iter().map(|x| format!(" {}", query(x))).collect::<std::string::String>()),
+        Or(l) => format!("(or{})", l.iter().map(|x| format!(" {}", query(x))).collect::<std::string::String>()),
+        Not(x) => format!("(not {})", query(x)),
+        Eq(k, v) => format!("(eq {} {})", s(k), s(v)),
+        Neq(k, v) => format!("(neq {} {})", s(k), s(v)),
+        Gt(k, v) => format!("(gt {} {})", s(k), s(v)),
+        Gte(k, v) => format!("(gte {} {})", s(k), s(v)),
+        Lt(k, v) => format!("(lt {} {})", s(k), s(v)),
+        Lte(k, v) => format!("(lte {} {})", s(k), s(v)),
+        Like(k, v) => format!("(like {} {})", s(k), s(v)),
+        In(k, vs) => format!("(in {} {})", s(k), list(vs.iter(), |x| s(x))),
+        Exist(ks) => format!("(exist {})", list(ks.iter(), |x| s(x))),
+    }
+}
